@@ -171,7 +171,13 @@ class Run:
                 j += 1
         if hierarchy:
             self.hierarchy_levels = (len(attrs) - 1, len(derived))
+            if sc.methods2:
+                # the second interface is declared by the derived class only
+                ifs = sc.interfaces()
+                attrs['dbusInterfaces'] = ifs[:1]
+                derived['dbusInterfaces'] = ifs[1:]
             base = type('ExpBase%d' % sc.idx, (O.DBusObject,), attrs)
+            self.base_class = base
             return type('Exp%d' % sc.idx, (base,), derived)
         return type('Exp%d' % sc.idx, (O.DBusObject,), attrs)
 
@@ -266,7 +272,13 @@ class Run:
                     'dbus_Who': lambda self_: self.replica_runs.append('who') or 'replica'})
                 replica.conn.exportObject(rcls('/exp'))
                 ctx.count('scenarios_with_a_replica_exporter_in_the_process')
-        obj = self.build_exporter_class()('/exp')
+        cls_ = self.build_exporter_class()
+        if getattr(self, 'base_class', None) is not None and sc.idx % 2:
+            # an instance of the BASE class is exported (and thereby used) first: what is worked out per class on first use
+            # must not be inherited by the derived class
+            exporter.conn.exportObject(self.base_class('/base'))
+            ctx.count('base_class_instance_exported_first')
+        obj = cls_('/exp')
         if getattr(self, 'hierarchy_levels', None) and min(self.hierarchy_levels) > 0:
             ctx.count('exporters_binding_one_interface_on_two_class_levels')
         exporter.conn.exportObject(obj)
